@@ -120,6 +120,7 @@ func (c *hctx) assigned(nodes ...ast.Node) map[*hvar]bool {
 						}
 					}
 				}
+				c.textCallEffects(v, wr)
 				if cal := g.calleeOf(v.Fun); cal != nil {
 					calleeEffects(cal, v.Fun, v.Args)
 				} else if id, ok := ast.Unparen(v.Fun).(*ast.Ident); ok {
@@ -166,6 +167,9 @@ func (c *hctx) stmt(s ast.Stmt, k func() term) term {
 						return tRaw{"Panic (PMsg \"" + m + "\")"}
 					}
 				}
+			}
+			if t, ok := c.textPanic(call); ok {
+				return t
 			}
 			c.lostAt(v, "panic argument %s (only a plain string literal)", src(call.Args[0]))
 		}
@@ -290,6 +294,8 @@ func (c *hctx) retStmt(v *ast.ReturnStmt) term {
 			}
 			if t.k == "nil" && res[i].k == "slice" {
 				x = "[]" // the nil slice
+			} else if s, ok := textNil(res[i]); ok && t.k == "nil" {
+				x = s
 			} else if t.k == "nil" && res[i].k != "hptr" {
 				c.lostAt(r, "returned nil")
 			}
@@ -572,6 +578,8 @@ func (c *hctx) storePrep(l ast.Expr, st *ast.AssignStmt, pre *[]hbind) func(val 
 			pat := x.name
 			if val == "None" || val == "[]" {
 				pat += " : " + x.typ.coq()
+			} else if c.g.tx != nil && x.typ.k == "struct" && len(x.typ.args) > 0 && st.Tok == token.DEFINE {
+				pat += " : " + x.typ.coq() // a record with type arguments: a field left at None would leave them open
 			}
 			*pre = append(*pre, hbind{pat: pat, e: val, isLet: true})
 		}
@@ -631,6 +639,11 @@ func (c *hctx) storePrep(l ast.Expr, st *ast.AssignStmt, pre *[]hbind) func(val 
 			c.lostAt(l, "assignment target %s", src(l))
 		}
 		return func(val string, t *hty) {
+			if t != nil && t.k == "nil" {
+				if i := fieldIdx(x.typ.st, v.Sel.Name); i >= 0 {
+					val = c.nilOf(c.fieldTypes(x.typ)[i], l)
+				}
+			}
 			rec := "mk_" + x.typ.name
 			for _, f := range x.typ.st.fnames {
 				if f == v.Sel.Name {
@@ -749,6 +762,8 @@ func (c *hctx) rangeStmt(v *ast.RangeStmt, k func() term) term {
 		}
 		if se, isWin := ast.Unparen(v.X).(*ast.SliceExpr); isWin {
 			xv = c.rangeWindow(v, se, &pre) // for ... := range xs[lo:hi]: the window as a list of its own
+		} else if xv == nil {
+			xv = c.textRangeExpr(v, &pre) // a slice-valued expression, in a function that stores nothing (fn_heap_text.go)
 		}
 		if xv == nil || xv.typ.k != "slice" {
 			c.lostAt(v, "range over %s (must be a slice variable)", src(v.X))
@@ -1078,7 +1093,7 @@ func (c *hctx) nilOf(t *hty, at ast.Node) string {
 	switch t.k {
 	case "slice":
 		return "[]"
-	case "hptr":
+	case "hptr", "err", "opt":
 		return "None"
 	}
 	c.lostAt(at, "nil assigned to a variable of type %s", t.k)
